@@ -36,14 +36,14 @@ grammar.  Its value half — `text.parse::<f64>()` gives back the very same `f64
 (`number-display-changes-value`), and the printed program is diffed byte-for-byte. -/
 abbrev NumTokenOk (s : String) : Prop := FloatParts s
 
-/-- trees whose printed text stays inside the lexer's sub-language: plain names, float literals, no
-`range` sugar -/
+/-- trees whose printed text stays inside the lexer's sub-language: plain names, float literals (a call named
+`range` is included since 10f80da: it is printed as a call, the sugar is confined to iterators) -/
 def TextOK : PExp → Prop
   | .int _ => True
   | .num s => NumTokenOk s
   | .bool _ => True
   | .var n => plainWord n.toList = true
-  | .call n args => plainWord n.toList = true ∧ n ≠ "range" ∧ TextOKs args
+  | .call n args => plainWord n.toList = true ∧ TextOKs args
   | .un _ e => TextOK e
   | .bin _ l r => TextOK l ∧ TextOK r
   | _ => False
@@ -134,11 +134,7 @@ theorem leaf_head {e : PExp} (h : TextOK e) (hl : e.isLeaf = true) :
       have := hw.1; rw [heq.1] at this; exact absurd this (by decide)
   | call n args =>
     have hw := h.1
-    have hnr := h.2.1
-    have hct : ∀ ss, callText n args ss = n ++ "(" ++ joinWith ", " ss ++ ")" := by
-      intro ss; unfold callText; split
-      · exact absurd rfl hnr
-      · rfl
+    have hct : ∀ ss, callText n ss = n ++ "(" ++ joinWith ", " ss ++ ")" := fun _ => rfl
     simp only [fmtExp, hct, String.toList_append]
     cases hn : n.toList with
     | nil => rw [hn] at hw; simp [plainWord] at hw
@@ -175,16 +171,13 @@ theorem lexExp : (t : PExp) → TextOK t → ∀ (rest : List Char) (pw : Bool) 
     have hnu : needsEscape n = false := plain_no_escape hw
     simpa [fmtExp, fmtToks, varText, hnu] using lexTo_word n.toList rest pw acc hw hd
   | .call n args, h, rest, pw, acc, hd => by
-    have hct : ∀ ss, callText n args ss = n ++ "(" ++ joinWith ", " ss ++ ")" := by
-      intro ss; unfold callText; split
-      · exact absurd rfl h.2.1
-      · rfl
-    have ha := lexArgs args h.2.2 (')' :: rest) false (.lpar :: .word n :: acc) (delim_rpar rest)
+    have hct : ∀ ss, callText n ss = n ++ "(" ++ joinWith ", " ss ++ ")" := fun _ => rfl
+    have ha := lexArgs args h.2 (')' :: rest) false (.lpar :: .word n :: acc) (delim_rpar rest)
     have h1 := lexTo_word n.toList ('(' :: ((joinWith ", " (fmtList args)).toList ++ ')' :: rest)) pw acc h.1 (delim_lpar _)
     have h2 := fun pw1 => lexTo_lpar ((joinWith ", " (fmtList args)).toList ++ ')' :: rest) pw1 (.word (String.ofList n.toList) :: acc)
     have h3 := fun pw1 => lexTo_rpar rest pw1 ((fmtToksArgs args).reverse ++ .lpar :: .word n :: acc)
     have := (h1.trans h2).trans (fun pw1 => by
-      have := lexArgs args h.2.2 (')' :: rest) pw1 (.lpar :: .word n :: acc) (delim_rpar rest)
+      have := lexArgs args h.2 (')' :: rest) pw1 (.lpar :: .word n :: acc) (delim_rpar rest)
       simpa using this.trans h3)
     simpa [fmtExp, hct, fmtToks, String.toList_append] using this
   | .un u e, h, rest, pw, acc, hd => by
